@@ -31,6 +31,7 @@ def _cfg(name):
 
 
 def _run_tlc(ck, label, *, timeout=900, workers=6, tags=(), sinks=None, simulate=None, depth=None, **kw):
+    # kw: arguments of dtls_common.write_mc_cfg (deviations, net_kinds, budgets, server_hvr, ...)
     path = _cfg(label.replace("/", "_"))
     dc.write_mc_cfg(path, **kw)
     try:
@@ -164,7 +165,35 @@ def run(tier):
         pairs = [s for s in dc.scenarios_from_sched(vlib.read_ndjson(s2), TICK_MS, DEADLINE_MS, always_empty=False)
                  if len(s["ops"]) == 2][:160]
 
-    scenarios = singles + pairs
+    # rustrtc against the reference implementation (webrtc-rs dtls 0.17.2) through the same proxy, both roles.
+    # Its server answers the first ClientHello with a HelloVerifyRequest: schedules for that pairing come from the
+    # model with ServerHvr = TRUE (checked for Converge as well). Outcome comparison only (the reference emits no
+    # hook events).
+    sh = os.path.join(d, "sched_hvr.ndjson")
+    _run_tlc(ck, "pinned_hvr_b1_gen", spec="FairSpec", deviations=dc.OPEN_DEVIATIONS, net_kinds=ALL_KINDS, net_budget=1,
+             invariants=INV, properties=["Converge"], emit="EmitSched", tags=("SCHED",), sinks={"SCHED": sh}, workers=1,
+             server_hvr=True)
+    ref_s = [dict(x, id=x["id"] + "-refS", peer="refS") for x in dc.scenarios_from_sched(vlib.read_ndjson(sh), TICK_MS, DEADLINE_MS)]
+    ref_c = [dict(x, id=x["id"] + "-refC", peer="refC") for x in singles]
+    if thorough:
+        sh2 = os.path.join(d, "sched_hvr_b2.ndjson")
+        _run_tlc(ck, "pinned_hvr_b2_sim", spec="Spec", deviations=dc.OPEN_DEVIATIONS, net_kinds=ALL_KINDS, net_budget=2,
+                 invariants=INV, emit="EmitSched", tags=("SCHED",), sinks={"SCHED": sh2}, workers=1, simulate=2000, depth=140,
+                 timeout=900, server_hvr=True)
+        ref_s += [dict(x, id=x["id"] + "-refS", peer="refS")
+                  for x in dc.scenarios_from_sched(vlib.read_ndjson(sh2), TICK_MS, DEADLINE_MS, always_empty=False)
+                  if len(x["ops"]) == 2][:400]
+        ref_c += [dict(x, id=x["id"] + "-refC", peer="refC") for x in pairs if len(x["ops"]) == 2][:400]
+    # The reference server returns from its handshake loop once finished and never sends its final flight again
+    # (dtls-0.17.2 handshaker.rs: `handshake()` returns at HandshakeState::Finished), so a schedule that loses
+    # its Finished cannot converge whatever rustrtc does: not run against it (run rustrtc<->rustrtc above).
+    def ref_final_lost(x):
+        return any(o["dir"] == "S>C" and o["msg"] == "FIN" and o["kind"] in ("drop", "hold") for o in x["tlc_ops"])
+    n_ref_excluded = sum(1 for x in ref_s if ref_final_lost(x))
+    ref_s = [x for x in ref_s if not ref_final_lost(x)]
+    ref_ids = {x["id"] for x in ref_s + ref_c}
+
+    scenarios = singles + pairs + ref_s + ref_c
     outcomes = dc.run_scenarios(ck, scenarios, tier, nproc=8 if not thorough else 12,
                                 timeout=600 if not thorough else 3000)
     unfired = 0
@@ -181,7 +210,8 @@ def run(tier):
         ck.divergence(sig, rec)
 
     # trace validation of every recorded run
-    accepted, rejections, tres = dc.validate_traces(ck, outcomes, dc.OPEN_DEVIATIONS, tier)
+    accepted, rejections, tres = dc.validate_traces(ck, [o for o in outcomes if o["id"] not in ref_ids],
+                                                     dc.OPEN_DEVIATIONS, tier)
     for r in tres:
         ck.add_tlc(r, "trace_validation")
     by_id = {o["id"]: o for o in outcomes}
@@ -209,7 +239,9 @@ def run(tier):
     ck.notes.append(f"schedules: {len(singles)} single-fault (all TLC found, MaxOrd 2) + {len(pairs)} multi-fault; "
                     f"ops that did not fire in the real run: {unfired}; trace validation: {accepted} accepted, "
                     f"{len(rejections)} rejected")
-    ck.notes.append("rustrtc<->reference-DTLS pairs: not wired (see design_notes/C11.md)")
+    ck.notes.append(f"rustrtc<->reference (webrtc-rs dtls 0.17.2) pairs: {len(ref_s)} schedules with the reference as server "
+                    f"(HelloVerifyRequest exchange; {n_ref_excluded} schedules that lose the reference's final flight excluded: it "
+                    f"never resends it), {len(ref_c)} with the reference as client; outcome comparison only")
     ck.assumptions += [
         "bounds: faults address ordinals 1..2 of each (direction, datagram label); quick: all single faults executed, "
         "pairs model-checked for drop/hold-1/split-3 on first transmissions and a seeded TLC -simulate sample of pairs executed; "
